@@ -284,7 +284,8 @@ class C11(System):
                         tp, V = ent[0], ent[-1]       # (TP copy, [anything a repaired version may add], V)
                         if len(ent) > 2 and phase not in ent[1:-1]: continue      # memo keyed on something that no longer matches: not in use
                         if tp.in_equilibrium(dv.TP) and i < len(chems) and not close(V, molar_volume(chems[i], phase, tp._T, tp._P), 1e-9):
-                            return dim, 'volume-memo-of-another-phase'
+                            # a memo that records its phase (repaired trees) and still disagrees is stale for another reason
+                            return dim, ('volume-memo-stale' if len(ent) > 2 else 'volume-memo-of-another-phase')
         return None
 
     def _classify(self, st, v):
